@@ -179,6 +179,8 @@ VARIANTS = [
     # ---------------- R-KINDMISSING (C10) -- the unchanged tree carries one *known* finding of this rule (DESIGN 6, K1)
     V("fill shortcut for another set of kinds with missing values (a different violation than the known one)", ("C10",), "R-KINDMISSING", "core.py", 'and array.dtype.kind != "f":\n        # nothing to do, no NaNs!', 'and array.dtype.kind not in "fc":\n        # nothing to do, no NaNs!', must_mention="MOm"),
     V("twin: fill shortcut restricted to kinds without a missing value", ("C10",), "", "core.py", 'and array.dtype.kind != "f":\n        # nothing to do, no NaNs!', 'and array.dtype.kind in "iub":\n        # nothing to do, no NaNs!', expect="silent"),
+    # ---------------- R-SCANACC (C10, C20)
+    V("scan pre-op accumulates in the block's dtype", ("C10", "C20"), "R-SCANACC", "core.py", '        # the per-group totals are carried into later blocks: accumulate them like the scan itself does\n        dtype=agg.dtype,', '        dtype=inp.array.dtype,', must_mention="grouped_reduce"),
     # ---------------- R-LOOPSTORE (C09, C19)
     V("cohort map overwrites a repeated block set", ("C09", "C19"), "R-LOOPSTORE", "core.py", '        merged_cohorts[chunk] = sorted(merged_cohorts.get(chunk, []) + cohort)', '        merged_cohorts[chunk] = cohort', must_mention="merged_cohorts"),
     V("twin: cohort map merges under an explicit membership test", ("C09", "C19", "C02"), "", "core.py", '        merged_cohorts[chunk] = sorted(merged_cohorts.get(chunk, []) + cohort)',
